@@ -68,4 +68,26 @@ theorem C09_src_fromUsart_toUsart (f : Frame) (h : f.WF) :
     Src.fromUsart (Cobs.encode (usartBody f)) = .ok (normKind f) := by
   rw [Ross.src_fromUsart_eq]; exact Ross.fromUsart_toUsart f h
 
+/-- **C09's encode side about the encoder as it reads now**: `Src.toUsart` is `Frame::to_usart_frame` translated from
+`src/frame.rs` on every run (the five header bytes updated as the source updates them, casts keeping the low 8 bits, the copy of
+the data bytes, then the model's COBS encoder). For every well-formed frame it emits the COBS encoding of the published header
+followed by the data bytes, contains no delimiter byte and is at most 14 bytes long. -/
+theorem C09_src_toUsart_layout (f : Frame) (h : f.WF) :
+    Src.toUsart f = .ok (Cobs.encode (header f ++ f.data.take f.dataLen)) ∧
+    ∃ u, Src.toUsart f = .ok u ∧ (∀ b ∈ u, b ≠ 0) ∧ u.length = f.dataLen + 6 ∧ u.length ≤ 14 := by
+  rw [Ross.src_toUsart_eq]; exact ⟨Ross.toUsart_layout f h, Ross.toUsart_transparent f h⟩
+
+/-- the round trip through both translated sides: `Src.fromUsart` inverts `Src.toUsart` on every well-formed frame (up to the
+kind of frame id, which is not on the wire) -/
+theorem C09_src_roundtrip (f : Frame) (h : f.WF) :
+    (match Src.toUsart f with | .ok u => Src.fromUsart u | .err e => .err e | .panic => .panic) = .ok (normKind f) := by
+  have hu : toUsart f = .ok (Cobs.encode (usartBody f)) := by
+    unfold toUsart
+    have hl : ¬ f.data.length < f.dataLen := by have := h.1; have := h.2.1; omega
+    simp [hl]
+  rw [Ross.src_toUsart_eq, hu]
+  simp only []
+  rw [Ross.src_fromUsart_eq]
+  exact Ross.fromUsart_toUsart f h
+
 end Ross.Props
